@@ -264,3 +264,195 @@ Example merge_recursive_fx_on_witness :
   deep 4 (fst (h_merge_recursive_fx 4 mr_heap [HO 1; HO 3])) (snd (h_merge_recursive_fx 4 mr_heap [HO 1; HO 3]))
     = VObj [(bs "a", VObj [(bs "x", VInt 1); (bs "y", VInt 2)])].
 Proof. split; vm_compute; reflexivity. Qed.
+
+(* ================================================================== *)
+(* the repaired MERGE_RECURSIVE: every object the call writes to was allocated
+   by the call.  [fresh_objs n h]: objects at or above n only hold object
+   references at or above n — the result tree never points into an argument. *)
+Definition fresh_ref (n : nat) (r : hval) : Prop := match r with HO o => n <= o | _ => True end.
+Definition fresh_objs (n : nat) (h : heap) : Prop :=
+  forall l m, n <= l -> cell_at h l = Some (CObj m) -> Forall (fun kv => fresh_ref n (snd kv)) m.
+Definition not_obj (c : cell) : Prop := match c with CObj _ => False | _ => True end.
+
+(* what one step of the call may do to the heap *)
+Definition step_ok (n : nat) (h h' : heap) : Prop :=
+  frame n h h' /\ List.length h <= List.length h' /\ fresh_objs n h'.
+
+Lemma step_trans n h1 h2 h3 : step_ok n h1 h2 -> step_ok n h2 h3 -> step_ok n h1 h3.
+Proof.
+  intros [F1 [L1 _]] [F2 [L2 G2]]. split; [eapply frame_trans; eauto|]. split; [lia | exact G2].
+Qed.
+Lemma step_refl n h : fresh_objs n h -> step_ok n h h.
+Proof. intros G. split; [apply frame_refl|]. split; [lia | exact G]. Qed.
+
+Lemma fresh_alloc n h c : fresh_objs n h ->
+  (match c with CObj m => Forall (fun kv => fresh_ref n (snd kv)) m | _ => True end) ->
+  fresh_objs n (h ++ [c]).
+Proof.
+  intros G Hc l m Hl E. unfold cell_at in E.
+  destruct (Nat.lt_ge_cases l (List.length h)) as [L|L].
+  - rewrite nth_error_app1 in E by exact L. exact (G l m Hl E).
+  - rewrite nth_error_app2 in E by exact L. destruct (l - List.length h) as [|k]; cbn in E.
+    + injection E as ->. exact Hc.
+    + destruct k; discriminate.
+Qed.
+Lemma fresh_upd n h i c : fresh_objs n h ->
+  (match c with CObj m => Forall (fun kv => fresh_ref n (snd kv)) m | _ => True end) ->
+  fresh_objs n (upd h i c).
+Proof.
+  intros G Hc l m Hl E. unfold cell_at in E. destruct (Nat.eq_dec i l) as [->|Hne].
+  - destruct (Nat.lt_ge_cases l (List.length h)) as [L|L].
+    + rewrite nth_error_upd_same in E by exact L. injection E as ->. exact Hc.
+    + assert (N : nth_error (upd h l c) l = None) by (apply nth_error_None; rewrite upd_length; exact L).
+      congruence.
+  - rewrite nth_error_upd_other in E by exact Hne. exact (G l m Hl E).
+Qed.
+
+Lemma push_fresh_objs n h a x : fresh_objs n h -> fresh_objs n (h_push h a x).
+Proof.
+  intros G. unfold h_push. destruct (cell_at h a) as [[s|b off len cap|m]|]; try exact G.
+  destruct (len <? cap).
+  - apply fresh_upd; [apply fresh_upd; [exact G | exact I] | exact I].
+  - unfold alloc. apply fresh_upd; [apply fresh_alloc; [exact G | exact I] | exact I].
+Qed.
+Lemma build_step n h cap xs : n <= List.length h -> fresh_objs n h -> step_ok n h (fst (h_build h cap xs)).
+Proof.
+  intros L G. destruct (build_preserves h cap xs) as [F Ln]. split; [eapply frame_mono; eauto|].
+  split; [exact Ln|]. clear F Ln. unfold h_build, h_new_array, alloc. cbn [fst].
+  assert (G1 : fresh_objs n ((h ++ [CBack (repeat (HS VNone) cap)]) ++ [CArr (List.length h) 0 0 cap]))
+    by (apply fresh_alloc; [apply fresh_alloc; [exact G | exact I] | exact I]).
+  revert G1. generalize ((h ++ [CBack (repeat (HS VNone) cap)]) ++ [CArr (List.length h) 0 0 cap]).
+  induction xs as [|x r IH]; intros hh Gh; cbn [fold_left]; [exact Gh|].
+  apply IH. now apply push_fresh_objs.
+Qed.
+
+Lemma hset_Forall (P : hval -> Prop) k x m :
+  P x -> Forall (fun kv => P (snd kv)) m -> Forall (fun kv => P (snd kv)) (hset k x m).
+Proof.
+  intros Hx. induction 1 as [|[k' v'] r Hv Hr IH]; cbn [hset]; [repeat constructor; exact Hx|].
+  destruct (bytes_eqb k' k); constructor; auto.
+Qed.
+Lemma obj_set_step n h o k x : n <= o -> fresh_objs n h -> fresh_ref n x -> step_ok n h (h_obj_set h o k x).
+Proof.
+  intros Ho G Hx. destruct (obj_set_fresh n h o k x Ho) as [F L]. split; [exact F|]. split; [lia|].
+  unfold h_obj_set. destruct (cell_at h o) as [[s|b off len cap|m]|] eqn:E; try exact G.
+  apply fresh_upd; [exact G|]. apply hset_Forall; [exact Hx|]. exact (G o m Ho E).
+Qed.
+Lemma build_object_step n h kvs : n <= List.length h -> fresh_objs n h ->
+  Forall (fun kv => fresh_ref n (snd kv)) kvs ->
+  step_ok n h (fst (h_build_object h kvs)) /\ n <= snd (h_build_object h kvs).
+Proof.
+  intros L G Hk. unfold h_build_object, h_new_object, alloc. cbn [fst snd]. split; [|exact L].
+  assert (S0 : step_ok n h (h ++ [CObj []])).
+  { split; [apply (frame_alloc n h (CObj [])); exact L|]. split; [rewrite app_length; cbn; lia|].
+    apply fresh_alloc; [exact G | constructor]. }
+  eapply step_trans; [exact S0|]. destruct S0 as [_ [_ G0]]. revert G0.
+  generalize (h ++ [CObj []]). induction Hk as [|kv r Hkv Hr IH]; intros hh Gh; cbn [fold_left].
+  - now apply step_refl.
+  - pose proof (obj_set_step n hh (List.length h) (fst kv) (snd kv) L Gh Hkv) as S1.
+    eapply step_trans; [exact S1|]. apply IH. exact (proj2 (proj2 S1)).
+Qed.
+
+Lemma clone_step n : forall fuel h r, n <= List.length h -> fresh_objs n h ->
+  step_ok n h (fst (h_clone fuel h r)) /\ fresh_ref n (snd (h_clone fuel h r)).
+Proof.
+  induction fuel as [|f IH]; intros h r L G; destruct r as [v|a|o]; cbn [h_clone fst snd];
+    try (split; [now apply step_refl | exact I]).
+  - (* array: clone the items, then build *)
+    assert (A : forall xs hh out, n <= List.length hh -> fresh_objs n hh ->
+              step_ok n hh (fst (fold_left (fun acc x => let c := h_clone f (fst acc) x in (fst c, snd acc ++ [snd c])) xs (hh, out)))).
+    { induction xs as [|x r IHx]; intros hh out Lh Gh; cbn [fold_left]; [now apply step_refl|].
+      destruct (IH hh x Lh Gh) as [S1 _]. cbn zeta. cbn [fst snd].
+      eapply step_trans; [exact S1|]. destruct S1 as [_ [L1 G1]]. apply IHx; [lia | exact G1]. }
+    specialize (A (arr_items h a) h [] L G).
+    match goal with |- context [h_build (fst ?X) 0 (snd ?X)] => set (acc := X) in * end.
+    destruct A as [FA [LA GA]]. split; [|exact I].
+    eapply step_trans; [split; [exact FA | split; [exact LA | exact GA]]|].
+    apply build_step; [lia | exact GA].
+  - (* object: clone the members, then build *)
+    assert (A : forall ms hh out, n <= List.length hh -> fresh_objs n hh ->
+              Forall (fun kv => fresh_ref n (snd kv)) out ->
+              let res := fold_left (fun acc kv => let c := h_clone f (fst acc) (snd kv) in
+                                                  (fst c, snd acc ++ [(fst kv, snd c)])) ms (hh, out) in
+              step_ok n hh (fst res) /\ Forall (fun kv => fresh_ref n (snd kv)) (snd res)).
+    { induction ms as [|kv r IHm]; intros hh out Lh Gh Ho; cbn [fold_left]; [split; [now apply step_refl | exact Ho]|].
+      destruct (IH hh (snd kv) Lh Gh) as [S1 R1]. cbn zeta. cbn [fst snd].
+      destruct S1 as [F1 [L1 G1]].
+      destruct (IHm (fst (h_clone f hh (snd kv))) (out ++ [(fst kv, snd (h_clone f hh (snd kv)))])) as [S2 R2];
+        [lia | exact G1 | apply Forall_app; split; [exact Ho | repeat constructor; exact R1] |].
+      split; [eapply step_trans; [split; [exact F1 | split; [exact L1 | exact G1]] | exact S2] | exact R2]. }
+    destruct (A (obj_members h o) h [] L G (Forall_nil _)) as [SA RA].
+    match goal with |- context [h_build_object (fst ?X) (snd ?X)] => set (acc := X) in * end.
+    destruct SA as [FA [LA GA]].
+    destruct (build_object_step n (fst acc) (snd acc)) as [SB LB]; [lia | exact GA | exact RA |].
+    split; [eapply step_trans; [split; [exact FA | split; [exact LA | exact GA]] | exact SB] | exact LB].
+Qed.
+
+Lemma hget_In k m x : hget k m = Some x -> In x (map snd m).
+Proof.
+  induction m as [|[k' v] r IH]; cbn; [discriminate|]. destruct (bytes_eqb k' k); [intros [= ->]; now left | auto].
+Qed.
+
+Lemma merge_fx_step n : forall fuel h src dst, n <= List.length h -> fresh_objs n h -> fresh_ref n src ->
+  step_ok n h (fst (h_merge_fx fuel h src dst)) /\ fresh_ref n (snd (h_merge_fx fuel h src dst)).
+Proof.
+  induction fuel as [|f IH]; intros h src dst L G Hs; cbn [h_merge_fx].
+  - cbn. split; [now apply step_refl | exact I].
+  - destruct src as [v|a|s]; try (apply clone_step; assumption).
+    destruct dst as [v|a|d]; try (apply clone_step; assumption).
+    destruct (obj_members h d) as [|kv0 dm0] eqn:Ed; [cbn; split; [now apply step_refl | exact Hs]|].
+    cbn [fst snd]. split; [|exact Hs]. cbn in Hs.
+    generalize (kv0 :: dm0) as dm. clear Ed kv0 dm0.
+    intros dm. revert h L G. induction dm as [|kv r IHd]; intros h L G; cbn [fold_left]; [now apply step_refl|].
+    assert (R : step_ok n h (fst (match hget (fst kv) (obj_members h s) with
+                                  | Some sv => h_merge_fx f h sv (snd kv)
+                                  | None => h_clone f h (snd kv) end)) /\
+                fresh_ref n (snd (match hget (fst kv) (obj_members h s) with
+                                  | Some sv => h_merge_fx f h sv (snd kv)
+                                  | None => h_clone f h (snd kv) end))).
+    { destruct (hget (fst kv) (obj_members h s)) as [sv|] eqn:Eg; [|now apply clone_step].
+      apply IH; [exact L | exact G|].
+      unfold obj_members in Eg. destruct (cell_at h s) as [[sl|b off len cap|m]|] eqn:Ec; try discriminate.
+      pose proof (G s m Hs Ec) as Hm. apply hget_In in Eg. apply in_map_iff in Eg as [kv' [<- Hin]].
+      rewrite Forall_forall in Hm. now apply Hm. }
+    destruct R as [S1 R1]. set (r1 := match hget (fst kv) (obj_members h s) with
+                                       | Some sv => h_merge_fx f h sv (snd kv)
+                                       | None => h_clone f h (snd kv) end) in *.
+    destruct S1 as [F1 [L1 G1]].
+    pose proof (obj_set_step n (fst r1) s (fst kv) (snd r1) Hs G1 R1) as S2.
+    eapply step_trans; [split; [exact F1 | split; [exact L1 | exact G1]]|].
+    eapply step_trans; [exact S2|]. destruct S2 as [F2 [L2 G2]]. apply IHd; [lia | exact G2].
+Qed.
+
+Theorem merge_recursive_fx_frame fuel h args :
+  frame (List.length h) h (fst (h_merge_recursive_fx fuel h args)).
+Proof.
+  unfold h_merge_recursive_fx, h_new_object, alloc. set (n := List.length h).
+  assert (G0 : fresh_objs n (h ++ [CObj []])).
+  { intros l m Hl E. unfold cell_at in E. rewrite nth_error_app2 in E by exact Hl.
+    destruct (l - List.length h) as [|k]; cbn in E; [injection E as <-; constructor | destruct k; discriminate]. }
+  assert (S0 : step_ok n h (h ++ [CObj []])).
+  { split; [apply (frame_alloc n h (CObj [])); unfold n; lia|]. split; [rewrite app_length; cbn; lia | exact G0]. }
+  assert (A : forall args hh m, n <= List.length hh -> fresh_objs n hh -> fresh_ref n m ->
+            let acc := fold_left (fun acc a => h_merge_fx fuel (fst acc) (snd acc) a) args (hh, m) in
+            step_ok n hh (fst acc) /\ fresh_ref n (snd acc)).
+  { induction args0 as [|a r IHa]; intros hh m Lh Gh Hm; cbn [fold_left]; [split; [now apply step_refl | exact Hm]|].
+    destruct (merge_fx_step n fuel hh m a Lh Gh Hm) as [S1 R1]. cbn [fst snd].
+    destruct S1 as [F1 [L1 G1]].
+    destruct (IHa (fst (h_merge_fx fuel hh m a)) (snd (h_merge_fx fuel hh m a))) as [S2 R2]; [lia | exact G1 | exact R1|].
+    split; [eapply step_trans; [split; [exact F1 | split; [exact L1 | exact G1]] | exact S2] | exact R2]. }
+  destruct (A args (h ++ [CObj []]) (HO (List.length h))) as [SA RA];
+    [rewrite app_length; cbn; unfold n; lia | exact G0 | cbn; unfold n; lia |].
+  set (acc := fold_left _ args _) in *.
+  destruct SA as [FA [LA GA]].
+  destruct (clone_step n fuel (fst acc) (snd acc)) as [SC _];
+    [destruct S0 as [_ [L0 _]]; lia | exact GA |].
+  destruct S0 as [F0 _]. destruct SC as [FC _].
+  eapply frame_trans; [exact F0|]. eapply frame_trans; [exact FA | exact FC].
+Qed.
+Corollary merge_recursive_fx_preserves_args fuel h args k r :
+  closed (List.length h) h -> ref_below (List.length h) r ->
+  deep k (fst (h_merge_recursive_fx fuel h args)) r = deep k h r.
+Proof.
+  intros C Hr. apply (deep_frame (List.length h)); auto. apply merge_recursive_fx_frame.
+Qed.
